@@ -17,4 +17,18 @@ theorem setCookieSites_ok : setCookieSites = ([
   "pkg/sessions/persistence/ticket.go:ticket.clearCookie:cookies.MakeCookieFromOptions",
   "pkg/sessions/persistence/ticket.go:ticket.setCookie:ticketCookie"] : List String) := rfl
 
+theorem skel_MakeCookieFromOptions_ok : skel_MakeCookieFromOptions = ([
+  "if domain == \"\" && len(opts.Domains) > 0",
+  "if expiration > time.Duration(0)",
+  "if expiration < time.Duration(0)",
+  "return c"] : List String) := rfl
+
+theorem skel_GetCookieDomain_ok : skel_GetCookieDomain = ([
+  "if err == nil",
+  "net.SplitHostPort",
+  "if strings.HasSuffix(host, domain)",
+  "strings.HasSuffix",
+  "return domain",
+  "return \"\""] : List String) := rfl
+
 end O2P.Expect.C18
